@@ -5,13 +5,15 @@ property statement itself, written down as ten lines of set algebra (oracle O4, 
 
   operators   union, intersect with 2, 3, 4 operands; setdiff, symdiff with 2
   operands    input datasets | DS_m[filter Id_1 <> 1] as last operand | DS_1[filter Me_1 > 101] as first operand |
-              nested: outer(inner(DS_1, DS_2), DS_3) and outer(DS_1, inner(DS_2, DS_3)) for all 4 x 4 (outer, inner)
+              nested: outer(inner(DS_1, DS_2), DS_3) and outer(DS_1, inner(DS_2, DS_3)) for all 4 x 4 (outer, inner); a failing
+              composite is blamed only when its inner and outer operator hold alone on the same datasets, and on the inner
+              operator when it fails under at least two different outer operators
   structures  component order equal in all operands | operands 2.. in reversed component order | operand 1 reversed
   data        a key universe of k keys; every operand is every subset of the keys: (2^k)^m input cases, packed into one
               run through the extra identifier C_id (set operators match on all identifiers, so the slices are
               independent and the oracle evaluates the packed script on the packed data anyway);
               measure value = 100 * operand index + key index, so the operand a datapoint was taken from is observable
-  unpacked    every operand wholly empty or full (2^m combinations), structures without C_id
+  unpacked    every operand wholly empty or full (2^m combinations), structures without C_id (once per operator x operand count)
 
 quick: k = 2 for m <= 4, k = 3 for m = 2, one identifier (Id_1:Integer), one measure.  thorough: additionally k = 3 for
 m <= 4 with two identifiers (Id_1:Integer, Id_2:String) and two measures (Me_1:Integer, Me_2:String).
